@@ -237,6 +237,25 @@ fn hist<T: CellT + std::hash::Hash>(seed: u64, histories: usize, steps: usize, m
             } else {
                 None
             };
+            // an iterator whose announced length is the expected one but which yields one item more ("over") or fewer ("under")
+            // than announced: safe caller code; no panic is injected, the library may reject or accept the call - either way
+            // the array must stay valid (judged by the relation of C01 / C11 in TooDeeTrace.tla).  In every kind of history.
+            let mut a = a;
+            let fault = match fault {
+                None if matches!(op, "insert_row" | "push_row" | "insert_col" | "push_col") && !large && rng.chance(5) => {
+                    let items = a["items"].as_array_mut().unwrap();
+                    if rng.chance(60) {
+                        items.push(json!(fresh(1, &mut next_id)[0]));
+                        Some((json!({"kind": "lie", "site": "none", "k": 0, "lie": "minus1"}), LenMode::Minus1))
+                    } else if items.len() >= 2 {
+                        items.pop();
+                        Some((json!({"kind": "lie", "site": "none", "k": 0, "lie": "plus1"}), LenMode::Plus1))
+                    } else {
+                        None
+                    }
+                }
+                f => f,
+            };
             if let Some((f, mode)) = fault {
                 if std::env::var("DRIVE_DEBUG").is_ok() {
                     eprintln!("history {h}: {op} {a} fault {f} dims ({c},{r_})");
